@@ -50,7 +50,7 @@ for d in sorted(glob.glob(os.path.join(HERE, 'seeded', '*', 'meta.json'))):
     if not what and os.path.exists(notes_file):
         txt = open(notes_file).read().strip().split('\n')
         what = next((l.strip('# *-').strip() for l in txt if len(l.strip()) > 25), '')[:160]
-    lead = '**other check:** ' if m.get('caught_by_other_check') else '**gap:** ' if m.get('not_caught') else '**strengthened:** '
+    lead = '**no longer a behaviour change:** ' if m.get('neutralised') else '**other check:** ' if m.get('caught_by_other_check') else '**gap:** ' if m.get('not_caught') else '**strengthened:** '
     rows.append(f"| `{name}` | {m['property']} | {what} | {first or res} | {(lead + note) if note else ''} |")
 table = '| seeded change | property | what it does | quick tier, first attempt | follow-up |\n|---|---|---|---|---|\n' + '\n'.join(rows) + '\n'
 a, b = section(out, r'^## 7\. ', r'^## 8\. ')
